@@ -78,6 +78,20 @@
 #![no_std]
 extern crate alloc;
 
+#[cfg(feature = "verif_probes")]
+macro_rules! verif_probe {
+    ($id:expr) => {
+        crate::verif_probes::hit($id)
+    };
+}
+#[cfg(not(feature = "verif_probes"))]
+macro_rules! verif_probe {
+    ($id:expr) => {};
+}
+
+#[cfg(feature = "verif_probes")]
+pub mod verif_probes;
+
 mod decodation;
 mod encodation;
 pub mod errorcode;
